@@ -53,3 +53,157 @@ Print Assumptions C19_scanner_lang.
 Print Assumptions C19_span.
 Print Assumptions C19_span_complete.
 Print Assumptions C19_sources_agree.
+
+(* ---- the RawValue clauses (Model/RawM.v: src/raw.rs and the raw paths of ser.rs / value/ser.rs; proofs Proofs/Raw*.v): from_string accepts exactly the
+        scanner language and holds the trimmed text; a captured value is always one well-formed JSON text; it serialises back verbatim at top level and
+        inside every container context, compact and pretty; to_value = the parsed Value; nested placements (array element, object value, struct field,
+        tuple component, any position of any type program) capture exactly the source span. *)
+From SJ Require Import Base.Utf8 Base.FloatB Spec.Denote Model.Sval Model.Ser Model.ValueSer Model.Ty Model.DeTyped Model.RawM Proofs.StrSource Proofs.Utf8Lemmas Proofs.TypedTotal.
+From SJ Require Import Proofs.RawDe Proofs.RawSer Proofs.RawToValue Proofs.RawNested Proofs.RawAny.
+From SJ Require Proofs.RawProps.
+Notation EK k cf := (mkEnv k TEof cf) (only parsing).
+
+Theorem C19_from_string : forall cf s r,
+  utf8_valid s = true ->
+  (from_string cf s = TOk r
+   <-> exists w1 c w2, s = w1 ++ render c ++ w2 /\ ws_ok w1 = true /\ ws_ok w2 = true /\ wfb c = true /\ r = render c).
+Proof. exact RawProps.C19_from_string. Qed.
+Print Assumptions C19_from_string.
+
+Theorem C19_from_string_total : forall cf s,
+  (exists r, from_string cf s = TOk r) \/ (exists c i, from_string cf s = TErr c i).
+Proof. exact RawProps.C19_from_string_total. Qed.
+Print Assumptions C19_from_string_total.
+
+Theorem C19_from_string_is_from_str : forall cf s r,
+  Forall (fun b => (b < 256)%N) s ->
+  (from_string cf s = TOk r <-> raw_from_input (EK RStr cf) s = TOk r).
+Proof. exact RawProps.C19_from_string_is_from_str. Qed.
+Print Assumptions C19_from_string_is_from_str.
+
+Theorem C19_top_level : forall k cf bs r,
+  Forall (fun b => (b < 256)%N) bs -> (k = RStr \/ utf8_valid bs = true) ->
+  (raw_from_input (EK k cf) bs = TOk r
+   <-> exists w1 c w2, bs = w1 ++ render c ++ w2 /\ ws_ok w1 = true /\ ws_ok w2 = true /\ wfb c = true /\ r = render c).
+Proof. exact RawProps.C19_top_level. Qed.
+Print Assumptions C19_top_level.
+
+Theorem C19_top_level_exact : forall k cf bs r,
+  Forall (fun b => (b < 256)%N) bs ->
+  (raw_from_input (EK k cf) bs = TOk r
+   <-> (exists w1 c w2, bs = w1 ++ render c ++ w2 /\ ws_ok w1 = true /\ ws_ok w2 = true /\ wfb c = true /\ r = render c)
+       /\ (k = RStr \/ utf8_valid r = true)).
+Proof. exact RawProps.C19_top_level_exact. Qed.
+Print Assumptions C19_top_level_exact.
+
+Theorem C19_always_valid_json : forall k cf s a b s1,
+  Forall (fun x => (x < 256)%N) (rest s) ->
+  raw_value (EK k cf) s = Ok (a, b, s1) ->
+  exists c, wfb c = true /\ firstn (b - a) (skipn (a - off s) (rest s)) = render c.
+Proof. exact RawProps.C19_always_valid_json. Qed.
+Print Assumptions C19_always_valid_json.
+
+Theorem C19_always_valid_json_typed : forall k cf s d s1,
+  Forall (fun b => (b < 256)%N) (rest s) ->
+  deserialize_raw (EK k cf) s = TOk (d, s1) ->
+  exists w c, rest s = w ++ render c ++ rest s1 /\ ws_ok w = true /\ wfb c = true /\ d = DRaw (render c)
+          /\ off s1 = (off s + length w + length (render c))%nat /\ depth s1 = depth s
+          /\ (k <> RStr -> utf8_valid (render c) = true).
+Proof. exact RawProps.C19_always_valid_json_typed. Qed.
+Print Assumptions C19_always_valid_json_typed.
+
+Theorem C19_verbatim : forall cf fmt32 fmt64 F json,
+  rserialize cf fmt32 fmt64 F (RRaw json) = Ok [json] /\ rto_vec cf fmt32 fmt64 F (RRaw json) = Ok json.
+Proof. exact RawProps.C19_verbatim. Qed.
+Print Assumptions C19_verbatim.
+
+Theorem C19_verbatim_in_context : forall cf fmt32 fmt64 F (x : rctx) (st : fstate),
+  (exists A B fin, forall json, rser cf fmt32 fmt64 F (plug x (RRaw json)) st = (A ++ [json] ++ B, fin))
+  \/ (exists A e, not_ok e /\ forall json, rser cf fmt32 fmt64 F (plug x (RRaw json)) st = (A, e)).
+Proof. exact RawProps.C19_verbatim_in_context. Qed.
+Print Assumptions C19_verbatim_in_context.
+
+Theorem C19_verbatim_array_element : forall cf fmt32 fmt64 F json rest cs st,
+  rser_elems F (rser cf fmt32 fmt64 F) (RRaw json :: rest) cs st =
+  (do* st1 := Ser.lift (begin_array_value F (is_first cs) st) in
+   do* _ := twrite json in
+   do* st3 := Ser.lift (end_array_value F st1) in
+   rser_elems F (rser cf fmt32 fmt64 F) rest Rest st3).
+Proof. exact RawProps.C19_verbatim_array_element. Qed.
+Print Assumptions C19_verbatim_array_element.
+
+Theorem C19_roundtrip : forall k cf fmt32 fmt64 F s d s1,
+  Forall (fun b => (b < 256)%N) (rest s) ->
+  deserialize_raw (EK k cf) s = TOk (d, s1) ->
+  exists w, ws_ok w = true /\ rest s = w ++ raw_of d ++ rest s1
+         /\ d = DRaw (raw_of d)
+         /\ rto_vec cf fmt32 fmt64 F (RRaw (raw_of d)) = Ok (raw_of d).
+Proof. exact RawProps.C19_roundtrip. Qed.
+Print Assumptions C19_roundtrip.
+
+Theorem C19_roundtrip_top : forall k cf fmt32 fmt64 F bs r,
+  Forall (fun b => (b < 256)%N) bs -> (k = RStr \/ utf8_valid bs = true) ->
+  raw_from_input (EK k cf) bs = TOk r ->
+  rto_vec cf fmt32 fmt64 F (RRaw r) = Ok r
+  /\ exists w1 w2, bs = w1 ++ r ++ w2 /\ ws_ok w1 = true /\ ws_ok w2 = true.
+Proof. exact RawProps.C19_roundtrip_top. Qed.
+Print Assumptions C19_roundtrip_top.
+
+Theorem C19_to_value : forall cf fmt32 fmt64 json,
+  rto_value cf fmt32 fmt64 (RRaw json) = from_input (EK RStr cf) json.
+Proof. exact RawProps.C19_to_value. Qed.
+Print Assumptions C19_to_value.
+
+Theorem C19_to_value_captured : forall k cf fmt32 fmt64 bs r,
+  utf8_valid bs = true ->
+  raw_from_input (EK k cf) bs = TOk r ->
+  forall v, rto_value cf fmt32 fmt64 (RRaw r) = Ok v <-> from_input (EK RSlice cf) bs = Ok v.
+Proof. exact RawProps.C19_to_value_captured. Qed.
+Print Assumptions C19_to_value_captured.
+
+Theorem C19_to_value_denote : forall cf fmt32 fmt64 c v,
+  wfb c = true -> utf8_valid (render c) = true -> denote cf c = Some v ->
+  (limit_disabled cf = false -> (cdepth c <= 127)%nat) ->
+  rto_value cf fmt32 fmt64 (RRaw (render c)) = Ok v.
+Proof. exact RawProps.C19_to_value_denote. Qed.
+Print Assumptions C19_to_value_denote.
+
+Theorem C19_nested_seq : forall k cf w1 w0 l w2,
+  ws_ok w1 = true -> ws_ok w2 = true -> wfb (arr_of w0 l) = true -> input_ok k (w1 ++ render (arr_of w0 l) ++ w2) ->
+  from_input_typed (EK k cf) (TSeq TRaw) (w1 ++ render (arr_of w0 l) ++ w2) = TOk (DSeq (map DRaw (espans l))).
+Proof. exact RawProps.C19_nested_seq. Qed.
+Print Assumptions C19_nested_seq.
+
+Theorem C19_nested_tuple : forall k cf w1 w0 l w2,
+  ws_ok w1 = true -> ws_ok w2 = true -> wfb (arr_of w0 l) = true -> input_ok k (w1 ++ render (arr_of w0 l) ++ w2) ->
+  from_input_typed (EK k cf) (TTuple (repeat TRaw (length l))) (w1 ++ render (arr_of w0 l) ++ w2) = TOk (DSeq (map DRaw (espans l))).
+Proof. exact RawProps.C19_nested_tuple. Qed.
+Print Assumptions C19_nested_tuple.
+
+Theorem C19_nested_map : forall k cf w1 w0 l w2 keys,
+  ws_ok w1 = true -> ws_ok w2 = true -> wfb (obj_of w0 l) = true -> Forall2 key_is l keys ->
+  input_ok k (w1 ++ render (obj_of w0 l) ++ w2) ->
+  exists es, from_input_typed (EK k cf) (TMap KStr TRaw) (w1 ++ render (obj_of w0 l) ++ w2) = TOk (DMap es)
+          /\ Forall2 entry_is es (combine keys (mspans l)).
+Proof. exact RawProps.C19_nested_map. Qed.
+Print Assumptions C19_nested_map.
+
+Theorem C19_nested_struct : forall k cf w1 w0 l w2 names,
+  ws_ok w1 = true -> ws_ok w2 = true -> wfb (obj_of w0 l) = true -> Forall2 key_is l names -> NoDup names ->
+  input_ok k (w1 ++ render (obj_of w0 l) ++ w2) ->
+  from_input_typed (EK k cf) (TStruct (mkfields names)) (w1 ++ render (obj_of w0 l) ++ w2) = TOk (DStruct (map DRaw (mspans l))).
+Proof. exact RawProps.C19_nested_struct. Qed.
+Print Assumptions C19_nested_struct.
+
+Theorem C19_nested_struct_positional : forall k cf w1 w0 l w2 names,
+  ws_ok w1 = true -> ws_ok w2 = true -> wfb (arr_of w0 l) = true -> length names = length l ->
+  input_ok k (w1 ++ render (arr_of w0 l) ++ w2) ->
+  from_input_typed (EK k cf) (TStruct (mkfields names)) (w1 ++ render (arr_of w0 l) ++ w2) = TOk (DStruct (map DRaw (espans l))).
+Proof. exact RawProps.C19_nested_struct_positional. Qed.
+Print Assumptions C19_nested_struct_positional.
+
+Theorem C19_any_position : forall k cf t bs d,
+  Forall (fun b => (b < 256)%N) bs ->
+  from_input_typed (EK k cf) t bs = TOk d -> raws_in bs d.
+Proof. exact RawProps.C19_any_position. Qed.
+Print Assumptions C19_any_position.
